@@ -68,6 +68,11 @@ impl Scenario for StakingScenario {
                 violations.push(viol(p, &format!("panic.{}", panic_site(m)), format!("{} panicked: {}", act_label(a), m)));
             }
         }
+        if let (Some(p), Some(e)) = (self.panics_are, &ap.post_state_err) {
+            if e.starts_with("PANIC") {
+                violations.push(viol(p, "panic.query.State", format!("the State query panics after {}: {e}", act_label(a))));
+            }
+        }
         if let Some(u) = &ap.out.unknown_msg {
             violations.push(viol("MACHINERY", "sim.unknown_message", u.clone()));
         }
